@@ -4,7 +4,10 @@
 
 use super::mailbox;
 use crate::internal::left_right;
+#[cfg(not(excsn_fibre_verif))]
 use papaya::HashMap;
+#[cfg(excsn_fibre_verif)]
+use fibre_verif_rt::hash::PapayaHashMap as HashMap;
 use parking_lot::Mutex;
 use std::fmt;
 use std::hash::Hash;
